@@ -47,6 +47,11 @@ type Workflow[I, O any] struct {
 	workflowNodes    map[string]*WorkflowNode
 	workflowBranches []*WorkflowBranch
 	dependencies     map[string]map[string]dependencyType
+
+	// workflowNodeKeys holds the keys of workflowNodes in the order the nodes were declared:
+	// compile replays the recorded inputs in this order, so that its outcome (the types
+	// inferred for passthrough nodes included) does not depend on map iteration order.
+	workflowNodeKeys []string
 }
 
 type dependencyType int
@@ -444,7 +449,8 @@ func (wf *Workflow[I, O]) compile(ctx context.Context, options *graphCompileOpti
 		_ = wf.g.addBranch(wb.fromNodeKey, wb.GraphBranch, true)
 	}
 
-	for _, n := range wf.workflowNodes {
+	for _, key := range wf.workflowNodeKeys {
+		n := wf.workflowNodes[key]
 		for _, addInput := range n.addInputs {
 			if err := addInput(); err != nil {
 				return nil, err
@@ -513,6 +519,9 @@ func (wf *Workflow[I, O]) initNode(key string) *WorkflowNode {
 			wf.dependencies[key][fromNodeKey] = typ
 		},
 		mappedFieldPath: make(map[string]any),
+	}
+	if _, ok := wf.workflowNodes[key]; !ok {
+		wf.workflowNodeKeys = append(wf.workflowNodeKeys, key)
 	}
 	wf.workflowNodes[key] = n
 	return n
